@@ -65,11 +65,18 @@ _CRYS, _BASE = {}, {}
 
 
 def base_cell(world):
-    key = (world["crystal"], world["super"], world["Nsolute"], tuple(world["interstitial"]), bool(world.get("nosym")))
+    scale = float(world.get("scale", 1.0))
+    key = (world["crystal"], world["super"], world["Nsolute"], tuple(world["interstitial"]), bool(world.get("nosym")), scale)
     if key not in _BASE:
-        if world["crystal"] not in _CRYS:
-            _CRYS[world["crystal"]] = make_crystal(world["crystal"])
-        crys, _ = _CRYS[world["crystal"]]
+        ckey = (world["crystal"], scale)
+        if ckey not in _CRYS:
+            crys0, inter0 = make_crystal(world["crystal"])
+            if scale != 1.0:
+                # the same structure at another length scale (lattice constant x scale): thresholds that are
+                # absolute in Cartesian or in direct coordinates see a different geometry
+                crys0 = crystal.Crystal(scale * crys0.lattice, crys0.basis, crys0.chemistry)
+            _CRYS[ckey] = (crys0, inter0)
+        crys, _ = _CRYS[ckey]
         sup = supercell.Supercell(crys, np.array(SUPERS[world["super"]]),
                                   interstitial=tuple(world["interstitial"]), Nsolute=world["Nsolute"],
                                   NOSYM=bool(world.get("nosym")))
@@ -653,7 +660,8 @@ class Engine(object):
             inter = [1] if rng.random() < 0.7 else []
             s = rng.choice(("222", "222", "221", "conv4", "odd6"))
         return {"crystal": c, "super": s, "Nsolute": ns, "interstitial": inter,
-                "class": "{}/{}/s{}{}".format(c, s, ns, "i" if inter else ""), "quiet": rng.choice((0, 0, 0.5, 0.9)), "nosym": rng.random() < 0.08}
+                "class": "{}/{}/s{}{}".format(c, s, ns, "i" if inter else ""), "quiet": rng.choice((0, 0, 0.5, 0.9)), "nosym": rng.random() < 0.08,
+                "scale": rng.choice((1.0, 1.0, 1.0, 0.4, 3.5))}
 
     def draw_length(self, rng):
         return rng.choice((3, 8, 20, 40, 60, 100))
